@@ -319,6 +319,15 @@ class C11Engine(PairedEngine):
         if not viol and R.final.key() != K.final.key():
             viol.append(self.v("restart-invisible-rows",
                                "channel rows at the end differ: rebuilt %s / kept %s" % (R.final.key(), K.final.key())))
+        if not viol and R.ufinal is not None and K.ufinal is not None:
+            # the retirement records are stored state too (the status row legitimately differs:
+            # it carries the reboot time)
+            ra, ka = R.ufinal.canon(), K.ufinal.canon()
+            for t in ("nameplates", "mailboxes"):
+                if ra[t] != ka[t]:
+                    viol.append(self.v("restart-invisible-usage",
+                                       "usage %s records at the end differ: rebuilt %s / kept %s" % (t, ra[t], ka[t])))
+                    break
         return viol, facts
 
 
